@@ -704,12 +704,18 @@ pub fn fmt_instrs(instrs: &[RawInstr]) -> Vec<String> {
 
 /// Compare two traces per the property (calls + args + real_time, final time if `cmp_time`, listed registers).
 pub fn compare_traces(a: &Trace, b: &Trace, regs_to_compare: &[i32], cmp_time: bool) -> Option<String> {
+    compare_traces_ex(a, b, regs_to_compare, cmp_time, true)
+}
+
+/// `cmp_real_time = false`: for instruction tables whose jumps carry no time argument, the time a jump
+/// lands on is not encoded in the instruction stream (DESIGN §3.6), so call times are not compared.
+pub fn compare_traces_ex(a: &Trace, b: &Trace, regs_to_compare: &[i32], cmp_time: bool, cmp_real_time: bool) -> Option<String> {
     let both_done = a.stopped.is_none() && b.stopped.is_none();
     let n = if both_done { a.log.len().max(b.log.len()) } else { a.log.len().min(b.log.len()) };
     for i in 0..n {
         match (a.log.get(i), b.log.get(i)) {
             (Some(x), Some(y)) => {
-                if x.opcode != y.opcode || x.real_time != y.real_time || x.args.len() != y.args.len() || x.args.iter().zip(&y.args).any(|(p, q)| !p.same(q)) {
+                if x.opcode != y.opcode || (cmp_real_time && x.real_time != y.real_time) || x.args.len() != y.args.len() || x.args.iter().zip(&y.args).any(|(p, q)| !p.same(q)) {
                     return Some(format!("call #{i} differs: {:?} vs {:?}", x, y));
                 }
             },
